@@ -28,9 +28,25 @@ type mut struct {
 	Func    string `json:"func"`
 }
 
+type rawEdit struct {
+	file, kind, fn string
+	start, end   int
+	repl         string
+}
+
+type cedit struct {
+	File    string `json:"file"`
+	Find    string `json:"find"`
+	Replace string `json:"replace"`
+}
+
 func main() {
+	combine := flag.String("combine", "", "with -equiv: emit combined variants, one per 'kind', 'file' (kind x file) or 'func' (kind x file x function), each applying every non-overlapping edit of its group at once")
+	only := flag.String("only", "", "with -combine: restrict to groups whose key contains this text")
+	var raws []rawEdit
 	repo := flag.String("repo", "/repo", "")
 	out := flag.String("out", "/tmp/mutgen", "")
+	equiv := flag.Bool("equiv", false, "emit behaviour-preserving variants (mirrored comparisons, swapped if/else, De Morgan, x += y => x = x + y) instead of breaking ones: every check must stay silent on each")
 	flag.Parse()
 	os.MkdirAll(*out, 0o755)
 	var files []string
@@ -56,6 +72,10 @@ func main() {
 		}
 		off := func(p token.Pos) int { return fset.Position(p).Offset }
 		emit := func(kind string, start, end int, repl string, fn string) {
+			if *combine != "" {
+				raws = append(raws, rawEdit{rel, kind, fn, start, end, repl})
+				return
+			}
 			// context: extend to line start, then backwards until unique
 			ls := start
 			for ls > 0 && src[ls-1] != '\n' {
@@ -99,6 +119,74 @@ func main() {
 			if fd.Recv != nil && len(fd.Recv.List) > 0 {
 				fn = strings.TrimSpace(string(src[off(fd.Recv.List[0].Type.Pos()):off(fd.Recv.List[0].Type.End())])) + "." + fn
 			}
+			if *equiv {
+				txt := func(n ast.Node) string { return string(src[off(n.Pos()):off(n.End())]) }
+				hasCall := func(e ast.Expr) bool {
+					found := false
+					ast.Inspect(e, func(n ast.Node) bool {
+						if c, ok := n.(*ast.CallExpr); ok {
+							if id, ok := c.Fun.(*ast.Ident); ok && (id.Name == "len" || id.Name == "cap" || id.Name == "uint32" || id.Name == "uint64" || id.Name == "int64" || id.Name == "int" || id.Name == "uint16" || id.Name == "uint") {
+								return true
+							}
+							found = true
+						}
+						if u, ok := n.(*ast.UnaryExpr); ok && u.Op == token.ARROW {
+							found = true
+						}
+						return true
+					})
+					return found
+				}
+				ast.Inspect(fd.Body, func(nd ast.Node) bool {
+					switch t := nd.(type) {
+					case *ast.BinaryExpr:
+						mir := map[token.Token]string{token.LSS: ">", token.LEQ: ">=", token.GTR: "<", token.GEQ: "<=", token.EQL: "==", token.NEQ: "!="}
+						if m, ok := mir[t.Op]; ok && !(hasCall(t.X) && hasCall(t.Y)) {
+							par := func(e ast.Expr) string {
+								if b, ok := e.(*ast.BinaryExpr); ok {
+									if _, cmp := mir[b.Op]; cmp {
+										return "(" + txt(e) + ")"
+									}
+								}
+								return txt(e)
+							}
+							emit("mirror", off(t.Pos()), off(t.End()), par(t.Y)+" "+m+" "+par(t.X), fn)
+						}
+						if t.Op == token.LAND {
+							emit("demorgan", off(t.Pos()), off(t.End()), "!(!("+txt(t.X)+") || !("+txt(t.Y)+"))", fn)
+						}
+						if t.Op == token.LOR {
+							emit("demorgan", off(t.Pos()), off(t.End()), "!(!("+txt(t.X)+") && !("+txt(t.Y)+"))", fn)
+						}
+					case *ast.IfStmt:
+						if eb, ok := t.Else.(*ast.BlockStmt); ok {
+							init := ""
+							if t.Init != nil {
+								init = txt(t.Init) + "; "
+							}
+							emit("ifswap", off(t.Pos()), off(t.End()), "if "+init+"!("+txt(t.Cond)+") "+txt(eb)+" else "+txt(t.Body), fn)
+						}
+					case *ast.AssignStmt:
+						if (t.Tok == token.ADD_ASSIGN || t.Tok == token.SUB_ASSIGN) && len(t.Lhs) == 1 && !hasCall(t.Lhs[0]) {
+							op := "+"
+							if t.Tok == token.SUB_ASSIGN {
+								op = "-"
+							}
+							emit("opassign", off(t.Pos()), off(t.End()), txt(t.Lhs[0])+" = "+txt(t.Lhs[0])+" "+op+" ("+txt(t.Rhs[0])+")", fn)
+						}
+					case *ast.IncDecStmt:
+						if !hasCall(t.X) {
+							op := "+="
+							if t.Tok == token.DEC {
+								op = "-="
+							}
+							emit("incdec", off(t.Pos()), off(t.End()), txt(t.X)+" "+op+" 1", fn)
+						}
+					}
+					return true
+				})
+				continue
+			}
 			ast.Inspect(fd.Body, func(nd ast.Node) bool {
 				switch t := nd.(type) {
 				case *ast.BlockStmt:
@@ -141,6 +229,75 @@ func main() {
 				}
 				return true
 			})
+		}
+	}
+	if *combine != "" {
+		groups := map[string][]rawEdit{}
+		var order []string
+		for _, r := range raws {
+			k := r.kind
+			if *combine == "file" || *combine == "func" {
+				k += "@" + r.file
+			}
+			if *combine == "func" {
+				k += "@" + r.fn
+			}
+			if *only != "" && !strings.Contains(k, *only) {
+				continue
+			}
+			if _, ok := groups[k]; !ok {
+				order = append(order, k)
+			}
+			groups[k] = append(groups[k], r)
+		}
+		for _, k := range order {
+			byFile := map[string][]rawEdit{}
+			var files []string
+			for _, r := range groups[k] {
+				if _, ok := byFile[r.file]; !ok {
+					files = append(files, r.file)
+				}
+				byFile[r.file] = append(byFile[r.file], r)
+			}
+			var edits []cedit
+			cnt := 0
+			for _, f := range files {
+				src, _ := os.ReadFile(filepath.Join(*repo, f))
+				es := byFile[f]
+				// outermost first (ast.Inspect order), drop edits nested in an already chosen one
+				var chosen []rawEdit
+				for _, e := range es {
+					ok := true
+					for _, c := range chosen {
+						if e.start < c.end && c.start < e.end {
+							ok = false
+						}
+					}
+					if ok {
+						chosen = append(chosen, e)
+					}
+				}
+				// apply back to front
+				for i := 0; i < len(chosen); i++ {
+					for j := i + 1; j < len(chosen); j++ {
+						if chosen[j].start > chosen[i].start {
+							chosen[i], chosen[j] = chosen[j], chosen[i]
+						}
+					}
+				}
+				out := string(src)
+				for _, e := range chosen {
+					out = out[:e.start] + e.repl + out[e.end:]
+					cnt++
+				}
+				edits = append(edits, cedit{f, string(src), out})
+			}
+			n++
+			id := strings.NewReplacer("/", "_", "@", "-", "*", "", ".", "_", "(", "", ")", "").Replace(k)
+			m := map[string]any{"id": fmt.Sprintf("eq-%s", id), "props": []string{}, "file": edits[0].File, "find": edits[0].Find, "replace": edits[0].Replace,
+				"edits": edits[1:], "kind": "equiv", "line": 0, "text": fmt.Sprintf("%d edits: %s", cnt, k), "func": k, "control": true}
+			b, _ := json.Marshal(m)
+			os.WriteFile(filepath.Join(*out, m["id"].(string)+".json"), b, 0o644)
 		}
 	}
 	fmt.Println(n, "variants")
